@@ -537,42 +537,78 @@ def r1_6(ctx):
                 if not okargs:
                     m[kind] = "?args"
     ctx.ob("get_moves:kind-to-generator", m == GEN, b.file, "dispatch %s" % {k: (v or "?").split("::")[-1] for k, v in m.items()})
-    g = f.body("move_generation::generate_moves")
+    # generate_moves: one iteration of the innermost loop around the generate_moves_for_piece call, by
+    # symbolic execution.  The element the iteration works on is a generic element of what is iterated:
+    # nested `for i in a..b { for j in a..b` and a lazy chain `(a..b).flat_map(|i| (a..b).map(move |j| ..))
+    # .filter_map(..)` both give: a point (I, J) of two different range generators, and the conditions
+    # under which the call is made.
+    from wa.symex import gen_range
+    from .attack import _path_feasible, KINDS, Undecided as AUndecided
+    GMFP = "move_generation::generate_moves_for_piece"
+    g = xbody(f, "move_generation::generate_moves")
     gex = Exprs(g)
     loops = g.loops()
-    rngs = []
-    for h, body_ in loops.items():
-        for x in body_:
-            if g.term(x)["k"] == "switch":
-                d = gex.switch_discr(x)
-                if d[0] == "discr" and d[1][0] == "call" and d[1][1].endswith("Range<A>>::next"):
-                    for y in data_slice(gex, strip_refs(d[1][2][0])):
-                        if y[0] == "agg" and y[1].endswith("ops::Range") and all(z[0] == "const" for z in y[3]):
-                            rngs.append((y[3][0][1], y[3][1][1]))
-    ctx.ob("generate_moves:visits-64-squares", sorted(set(rngs)) == [(2, 10)] and len(loops) == 2, g.file, "loops over %s" % rngs)
     bp = [i for i in range(1, g.arg_count + 1) if g.local_ty(i) == "&board::BoardState"][0]
     mp = [i for i in range(1, g.arg_count + 1) if g.local_ty(i) == MODE_TY][0]
-    calls = g.calls_to("move_generation::generate_moves_for_piece")
-    ok = len(calls) == 1
-    why = "%d calls of generate_moves_for_piece" % len(calls)
-    if ok:
-        bb, t = calls[0]
-        conds = []
-        for d, vals, excl, s, tg in dominating_facts(g, gex, bb):
-            truth = True if ((vals is None and excl == [0]) or vals == [1]) else (False if vals == [0] else None)
-            d0 = strip_refs(d)
-            if d0[0] == "bin" and d0[1] == "Eq" and truth:
-                a, c = strip_refs(d0[2]), strip_refs(d0[3])
-                if {a[0], c[0]} == {"field"} and {a[2], c[2]} == {"color", "to_move"}:
-                    conds.append("own")
-        args = gex.call_args(bb)
-        pc = strip_refs(args[0])
-        pt = strip_refs(args[2])
-        on_square = pt[0] == "agg" and pt[1] == "board::Point" and pc[0] == "field" and pc[1][0] == "downcast" and \
-            strip_refs(pc[1][1])[0] == "index" and strip_refs(pc[1][1])[2] == pt[3][1] and strip_refs(pc[1][1])[1][2] == pt[3][0]
-        ok = "own" in conds and on_square and strip_refs(args[1]) == ("arg", bp) and strip_refs(args[4]) == ("arg", mp)
-        why = "called for the piece on (i, j) when its colour is the side to move: colour test %s, square = loop indices %s, same board and mode passed on" % ("own" in conds, on_square)
-    ctx.ob("generate_moves:own-pieces", ok, g.file, why)
+    calls = g.calls_to(GMFP)
+    around = [(h, blk) for h, blk in loops.items() if len(calls) == 1 and calls[0][0] in blk]
+    ok64 = okown = False
+    why64 = why = "%d calls of generate_moves_for_piece, %d loops around it" % (len(calls), len(around))
+    if around:
+        h, blk = min(around, key=lambda x: len(x[1]))
+        exits_to = {s_ for x in blk for s_ in g.succ.get(x, []) if s_ not in blk}
+        carried, paths = summarise_loop(f, g, gex, h, blk, stop=exits_to, inline=None)
+        cont = [p for p in paths if p.end == "stop" and p.end_bb == h]
+        evs = [ev for p in paths for ev in p.events if ev[0] == "call" and ev[2] == GMFP]
+        cb = f.body(GMFP)
+        pos = {ty: [i for i in range(1, cb.arg_count + 1) if cb.local_ty(i) == ty] for ty in ("board::Piece", "&board::BoardState", "board::Point", MODE_TY)}
+        argsets = {tuple(erase(a) for a in ev[3]) for ev in evs}
+        if len(argsets) == 1 and all(len(v) == 1 for v in pos.values()):
+            args = next(iter(argsets))
+            pa, ba, pt, ma = (args[pos[ty][0] - 1] for ty in ("board::Piece", "&board::BoardState", "board::Point", MODE_TY))
+
+            def range_of(x):
+                gr = gen_range(x)
+                if gr:
+                    return (gr[1], gr[2])
+                if x[0] == "field" and x[1][0] == "downcast" and x[1][1][0] == "call" and x[1][1][1].endswith("::next"):
+                    for y in data_slice(gex, x[1][1]):
+                        if y[0] == "agg" and y[1].endswith("ops::Range") and len(y[3]) == 2 and all(z[0] == "const" for z in y[3]):
+                            return (y[3][0][1], y[3][1][1])
+                return None
+            if pt[0] == "agg" and pt[1] == "board::Point":
+                I, J = pt[3]
+                rI, rJ = range_of(I), range_of(J)
+                ok64 = rI == (2, 10) and rJ == (2, 10) and I != J
+                why64 = "the square handed on is (I, J) with I in %s and J in %s, independent generators: %s" % (rI, rJ, I != J)
+                cur = (elinear(I), elinear(J))
+                is_cur = lambda e: square_lin(e, bp) == cur
+                on_square = pa[0] == "field" and pa[2] == "0" and pa[1][0] == "downcast" and pa[1][2] == "Full" and is_cur(pa[1][1])
+                tbl_ok = True
+                detail = ""
+                try:
+                    for mover in ("White", "Black"):
+                        for stt in ["empty", "boundary"] + [(c, k) for c in ("White", "Black") for k in KINDS]:
+                            m = {"f": f, "comps": {("field", ("arg", bp), "to_move"): mover}, "C": None, "color": None, "is_cur": is_cur, "state": stt}
+                            feas = [p for p in cont if _path_feasible(p, m)]
+                            ncalls = [len([ev for ev in p.events if ev[0] == "call" and ev[2] == GMFP]) for p in feas]
+                            want = [1] if isinstance(stt, tuple) and stt[0] == mover else None
+                            if (want is not None and ncalls != want) or (want is None and any(ncalls)):
+                                tbl_ok = False
+                                detail = "; with %s to move and %s on the square: %s call(s)" % (mover, stt, ncalls)
+                except AUndecided as e:
+                    tbl_ok = False
+                    detail = "; a condition of the call is not a function of (side to move, what stands on the square): `%s`" % show_expr(e.args[0], g)[:100]
+                quiet = all(not [ev for ev in p.events if ev[0] == "call" and ev[2] == GMFP] for p in paths if p not in cont)
+                okown = tbl_ok and quiet and on_square and ba == ("arg", bp) and ma == ("arg", mp)
+                why = "called exactly when the square holds a piece of the side to move: %s%s; with that piece and its square: %s; same board and mode passed on: %s" % (
+                    tbl_ok and quiet, detail, on_square, ba == ("arg", bp) and ma == ("arg", mp))
+            else:
+                why64 = why = "the square handed to generate_moves_for_piece is not Point(I, J): `%s`" % show_expr(pt, g)[:80]
+        else:
+            why64 = why = "generate_moves_for_piece is called with different arguments on different paths"
+    ctx.ob("generate_moves:visits-64-squares", ok64, g.file, why64)
+    ctx.ob("generate_moves:own-pieces", okown, g.file, why)
     cc = g.calls_to("move_generation::generate_castling_moves")
     ok = len(cc) == 1
     if ok:
